@@ -2348,7 +2348,7 @@ func TestVerifC17Progress(t *testing.T) {
 	root := zzverif.NewRng(zzverif.Seed())
 	n := zzverif.EnvInt("VERIF_N", 400)
 	serve := func(items []any, stream bool) (int, string) {
-		w := httptest.NewRecorder()
+		w := NewRecorder() // (implements CloseNotify, which c.Stream needs)
 		c, _ := gin.CreateTestContext(w)
 		c.Request = httptest.NewRequest(http.MethodPost, "/api/pull", nil)
 		ch := make(chan any, len(items))
